@@ -18,6 +18,9 @@ CONSTANTS
   RemOffs = {0, 1}
   RemLens = {1, 2}
   LabChoices = {FALSE}
+  IfConds <- NoConds
+  MaxIfs = 0
+  Rotate = FALSE
   FeatureSets <- McFeatures
   Ctls = {"c", " "}
 INVARIANT TypeOK
